@@ -18,7 +18,7 @@ def run(chk):
         lo, hi = H.random_box(rng, n)
         x = rng.choice(evo_corr.edge_xs(rng, n, m) + [rng.random()] * 4)
         y = [a + (b - a) * rng.random() for a, b in zip(lo, hi)]
-        case = {'n': n, 'm': m, 'lo': lo, 'hi': hi, 'x': x, 'y': y}
+        case = {'n': n, 'm': m, 'lo': lo, 'hi': hi, 'x': x, 'y': y, 'prehistory': O.random_prehistory(rng, n, lo, hi)}
         fails = O.guarded(O.c09_point, case)
         chk.evaluations += 1
         if fails:
@@ -35,6 +35,6 @@ def run(chk):
 
 def replay(chk, rp):
     c = rp['case']
-    fails = O.guarded(O.c09_point, {k: c[k] for k in ('n', 'm', 'lo', 'hi', 'x', 'y') if k in c})
+    fails = O.guarded(O.c09_point, {k: c[k] for k in ('n', 'm', 'lo', 'hi', 'x', 'y', 'prehistory') if k in c})
     print(fails)
     return not fails
